@@ -39,6 +39,10 @@ Configs ==
   \cup UNION {{[verb |-> "rename", vis |-> v, map |-> m, args |-> <<>>, form |-> f] :
                  m \in {m \in RenameMaps : Len(m) <= 2 /\ \A i \in DOMAIN m : m[i][1] \in SeqSet(v)}, f \in {"col", "cname"}} : v \in Visibles}
   \cup UNION {{[verb |-> "select", vis |-> v, map |-> <<>>, args |-> a, form |-> f] : a \in UNION {Arrs(SeqSet(v), n) : n \in 1..Len(v)}, f \in Forms} : v \in Visibles}
+  \* select with a column named twice (selected once, at its first position) and, by string, a name that does not exist
+  \cup UNION {{[verb |-> "select", vis |-> v, map |-> <<>>, args |-> a, form |-> f] :
+                 a \in {<<x, y, x>> : x \in SeqSet(v), y \in SeqSet(v)} \cup {<<x, x>> : x \in SeqSet(v)}, f \in Forms} : v \in Visibles}
+  \cup UNION {{[verb |-> "select", vis |-> v, map |-> <<>>, args |-> <<x, "zz">>, form |-> "str"] : x \in SeqSet(v)} : v \in Visibles}
   \cup UNION {{[verb |-> "drop", vis |-> v, map |-> <<>>, args |-> a, form |-> f] : a \in {s \in SubSeqs(v) : s # v}, f \in Forms} : v \in Visibles}
   \cup {[verb |-> "mutate", vis |-> v, map |-> <<>>, args |-> a, form |-> f] : v \in Visibles, a \in UNION {Arrs(SeqSet(Vals), n) : n \in 1..2}, f \in {"col", "cname"}}
   \* summarize: map = the grouping columns (as pairs <<name, name>>), args = the names of the aggregates
@@ -53,7 +57,8 @@ Expected(c) ==      \* the names, or the documented error
             LET keys == {c.map[i][1] : i \in DOMAIN c.map}
                 out == MapS(c.vis, LAMBDA n : Lookup(c.map, n))
             IN IF ~(keys \subseteq SeqSet(c.vis)) \/ ~Distinct(out) THEN [err |-> "ValueError", names |-> <<>>] ELSE Names(out)
-      [] c.verb = "select" -> Names(c.args)
+      [] c.verb = "select" -> IF ~(SeqSet(c.args) \subseteq SeqSet(c.vis)) THEN [err |-> "ColumnNotFoundError", names |-> <<>>]
+                              ELSE Names(SelectSeq([i \in DOMAIN c.args |-> IF \E j \in 1..(i - 1) : c.args[j] = c.args[i] THEN "" ELSE c.args[i]], LAMBDA n : n # ""))
       [] c.verb = "drop" -> Names(SelectSeq(c.vis, LAMBDA n : n \notin SeqSet(c.args)))
       [] c.verb = "mutate" -> Names(SelectSeq(c.vis, LAMBDA n : n \notin SeqSet(c.args)) \o c.args)
       [] c.verb = "summarize" ->      \* the grouping columns that are not overwritten, then the aggregates
@@ -73,7 +78,7 @@ CM == INSTANCE CacheModel
 CmNames(c) ==
     LET M == CM!CmSource(c.vis) IN
     CASE c.verb = "rename" -> CM!CmRename(M, c.map).names
-      [] c.verb = "select" -> CM!CmSelect(M, c.args).names
+      [] c.verb = "select" -> CM!CmSelect(M, Expected(c).names).names
       [] c.verb = "drop" -> CM!CmDrop(M, c.args).names
       [] c.verb = "mutate" -> CM!CmMutate(M, c.args).names
       [] c.verb = "summarize" -> CM!CmSummarize(CM!CmGroupBy(M, [i \in DOMAIN c.map |-> c.map[i][1]], FALSE), c.args).names
